@@ -344,9 +344,9 @@ def _match(it: dict, e: dict, d: dict, t: str, via_iter: bool) -> list[str]:
         return []
     if not it["ok"]:
         return ["outcome:spurious-error:" + it.get("exc", "?")]
-    why = []
     if it["path"] != e["path"] or it["method"] != e["method"]:
-        why.append("outcome:wrong-operation")
+        return ["outcome:wrong-operation"]  # every other difference is a consequence
+    why = []
     exp = _pset(e["params"])
     gen = _param_diff(it["params"], exp, d, t, "params")
     lst = _param_diff(it["plist"], exp, d, t, "plist")
@@ -593,7 +593,7 @@ def run(ctx: Ctx) -> Outcome:
                 if feats:
                     sig += ":" + ",".join(feats)
                 if j > 1:
-                    sig += ":after-" + "+".join(_rel(a, b) for b in h[: j - 1])
+                    sig += ":after-" + "+".join(sorted({_rel(a, b) for b in h[: j - 1]}))
                 emitted[sig] = emitted.get(sig, 0) + 1
                 if emitted[sig] > 3:
                     continue
@@ -680,21 +680,16 @@ def selftest(ctx: Ctx) -> bool:
     ok_yaml = 200 in post["responses"] and True in props and False in props and type(props["v"]["default"]).__name__ == "date"
     files_json = json.load(open(ensure_files(d, "json", "single")))
     ok_yaml = ok_yaml and "200" in files_json["paths"]["/m/{id}"]["post"]["responses"]
-    exp_cases: list[dict] = []
-    exps: list[dict] = []
-
-    def pick(tag: str, c: dict) -> None:
-        if c["d"] == d and "exp" in c:
-            exps.append(c["exp"])
-        if c["d"] == d and c["ser"] == "yaml" and c["lay"] == "single" and [(a["k"], a["t"]) for a in c["h"]] == [("id", "M"), ("iter", "M")]:
-            exp_cases.append(c)
-
-    tlc.require_ok(tlc.run_tlc("OpCache", "OpCache_selftest.cfg", workers=16, timeout=600, want_prints=False, on_json=pick),
-                   "OpCache enumeration (selftest)")
-    if len(exp_cases) != 1 or len(exps) != 1:
+    lines: list[dict] = []
+    tlc.require_ok(tlc.run_tlc("OpCache", "OpCache_selftest.cfg", workers=16, timeout=600, want_prints=False,
+                               on_json=lambda tag, c: lines.append(c)), "OpCache enumeration (selftest)")
+    first = [c for c in lines if c.get("d") == d]
+    want = [c for c in lines if first and c["id"] == first[0]["id"] and c["ser"] == "yaml" and c["lay"] == "single"
+            and [(a["k"], a["t"]) for a in c["h"]] == [("id", "M"), ("iter", "M")]]
+    if len(first) != 1 or len(want) != 1:
         print("selftest: the chosen case is not in the exported family")
         return False
-    case = dict(exp_cases[0], exp=exps[0])
+    case = dict(want[0], d=d, exp=first[0]["exp"])
     good = observe(d, "yaml", "single", case["h"])
     import copy
 
